@@ -6,6 +6,7 @@ from ..driver import seeds_for
 from . import pipe_common as pc
 
 PROPERTY = "C02"
+SCHED_PATH = ("sched",)
 LEVEL = "exploration"
 QUICK_N = 320
 SCENARIO_TIMEOUT = 180
